@@ -1,23 +1,6 @@
 (* C14/Driver.v — entry point of the correspondence run (extracted to OCaml). *)
-From RM Require Import C14.Model.
+From RM Require Import C14.Model Gen.C14Reason.
 Open Scope Z_scope.
-
-Definition family_index (f : family) : Z :=
-  match f with
-  | MacGeneral => 0 | MacBadAccessKern => 1 | MacBadAccessArm => 2 | MacBadAccessPpc => 3 | MacBadAccessX86 => 4
-  | MacBadInstructionArm => 5 | MacBadInstructionPpc => 6 | MacBadInstructionX86 => 7
-  | MacArithmeticArm => 8 | MacArithmeticPpc => 9 | MacArithmeticX86 => 10 | MacSoftware => 11
-  | MacBreakpointArm => 12 | MacBreakpointPpc => 13 | MacBreakpointX86 => 14 | MacResource => 15 | MacGuard => 16
-  | LinuxGeneral => 17 | LinuxSigill => 18 | LinuxSigtrap => 19 | LinuxSigbus => 20 | LinuxSigfpe => 21
-  | LinuxSigsegv => 22 | LinuxSigsys => 23
-  | WindowsGeneral => 24 | WindowsWinError => 25 | WindowsWinErrorWithFacility => 26 | WindowsNtStatus => 27
-  | WindowsAccessViolation => 28 | WindowsInPageError => 29 | WindowsStackBufferOverrun => 30 | WindowsUnknown => 31
-  | Unknown => 32
-  end.
-
-(* membership table handed over with the case: (enumeration id, value) pairs that are members *)
-Definition lk_of (tbl : list (Z * Z)) (en v : Z) : bool :=
-  existsb (fun p => (fst p =? en) && (snd p =? v)) tbl.
 
 (* a thread context of kind 1 is readable when the architecture has a context reader *)
 Definition mk_ctx (arch kind ip sp : Z) : option ctx :=
@@ -57,13 +40,14 @@ Definition out_thread (p : profile) (d : dump) (tc : thread * callstack) : threa
                     | Some (_, c) => match frame_unloaded p d (c_ip c) with Ret l => Some l | _ => None end
                     | None => Some [] end |}.
 
-Definition run_case (p : profile) (d : dump) (tbl : list (Z * Z)) : c14_out :=
+(* enumeration membership: the tables translate/c14_reason.py regenerates from minidump-common/src/errors *)
+Definition run_case (p : profile) (d : dump) : c14_out :=
   let o := os_of_platform (d_platform d) in
   let c := cpu_of_arch (d_arch d) in
   {| o_threads := map (out_thread p d) (combine (d_threads d) (threads_of d));
      o_requesting := match requesting_thread d with Some i => Z.of_nat i | None => -1 end;
      o_exc := match d_exc d with
-              | Some e => let r := crash_reason (lk_of tbl) o c e in
+              | Some e => let r := crash_reason gen_lk o c e in
                           Some (crash_address o c e, family_index (fst r), snd r, reason_string r)
               | None => None end;
      o_pid := process_id d; o_ctime := process_create_time d; o_time := d_time d;
